@@ -37,6 +37,9 @@ CLAIMED = {
             "5 (C33)", "equivalence (refs>0 iff links>0) at quiescence", "Trusts the fake directive.Instance as a faithful stand-in for controllerbus reference counting; callbacks of one value are serialized as a real bus does."),
  "C39": sim("Real key-file loader against a scratch directory that the simulator puts into every state a crash during the non-atomic, non-fsynced write (any prefix, empty, missing) or an operator (garbage, other PEM types, directory, path below a file, symlink loop, dangling symlink, over-long name) can leave; sequences of loads and faults from the tape; every load must return a usable key or an error, and identities must be stable across reloads.",
             "5 (C39)", "key-or-error invariant + identity stability against the file-state model", "Crash points are modelled on the resulting file content; no fault is injected inside os.ReadFile/os.WriteFile (no file-system seam). No concurrency dimension."),
+
+ "C06": sim("One real bus with the real transport controller over a simlink transport; the harness plays the transport and issues establish / duplicate / same-UUID replacement / loss / duplicate loss / loss of unknown links as overlapping transport callbacks, the loss report owed after each system Close arrives at a driver-chosen later point, readers hold the controller lock while parked so that the TryLock fast path fails; at every quiescent point GetPeerLinks, watcher directive values and both internal tables must equal the per-object reference model (established and not yet lost), lost links must be closed, and a live link may only be closed for a cause.",
+            "5 (C06)", "refinement against a per-object liveness model at quiescence + close-cause invariant", "Trusts the simlink stub as a well-behaved link (one loss report per Close) and the patched util/broadcast; controllerbus internals run real but their interleavings are repeated, not explored. The quic.Transport clauses of the property are not simulated yet."),
 }
 
 NA_PURE = {
